@@ -146,6 +146,13 @@ class ExecBase:
                 lo = 0 if isinstance(ty, Opt) else 1
                 m = self.heap0[k][0]
                 self.axioms.append(z3.ForAll([r], z3.And(z3.Select(m, r) >= lo, z3.Select(m, r) < z3.Int("nalloc0"))))
+            if isinstance(inner, List) or inner == BYTES:
+                # ... and every list stored in a field has a non-negative length
+                r = z3.FreshConst(z3.IntSort(), "r")
+                m = self.heap0[k][0]
+                el = V(ty, z3.Select(m, r))
+                ln = T.list_len(T.opt_val(el)) if isinstance(ty, Opt) else T.list_len(el)
+                self.axioms.append(z3.ForAll([r], ln >= T.intval(0).t))
         return self.heap0[k][0]
 
     def hmap(self, st, cls, fld, ty=None):
